@@ -14,8 +14,26 @@ def default(r, i):
 
 
 def fail(r, i):
-    return {"fail": (r.randint(2, 25), r.choice(["ValueError", "KeyboardInterrupt", "BaseException", "ZeroDivisionError"])),
-            "lim": r.choice([30, 60, 120])}
+    """the objective raises at its k-th evaluation; the failing evaluation is reached by a plain Solve, after trials made through
+    DoGlobalIteration (in particular as the FIRST evaluation inside Solve), or as the first evaluation of a second Solve after the
+    budget was raised in place (theorems C16_fail_after_batches / _first_iteration_of_solve / _in_resumed_solve)"""
+    from common import f2h
+    k = r.randint(2, 25)
+    kw = {"fail": (k, r.choice(["ValueError", "KeyboardInterrupt", "BaseException", "ZeroDivisionError"])),
+          "lim": r.choice([30, 60, 120])}
+    u = r.random()
+    if u < 0.3:
+        j = k - 1 if u < 0.15 else r.randint(1, k - 1)
+        parts, rem = [], j
+        while rem > 0:
+            a = r.randint(1, rem); parts.append(a); rem -= a
+        kw["ops"] = [f"sv.iter {a}" for a in parts] + ["sv.dump", "sv.solve", "sv.result", "sv.dump"]
+    elif u < 0.5 and k >= 3:
+        kw["lim"] = k - 1
+        kw["eps"] = 1e-4
+        kw["ops"] = ["sv.solve", "sv.result", f"sv.setparams {k + r.choice([1, 5, 40])} {f2h(1e-4)}", "sv.solve", "sv.result", "sv.dump",
+                     "sv.solve", "sv.result"]
+    return kw
 
 
 def refine(r, i):
